@@ -12,6 +12,7 @@ import armi.reactor.grids.hexagonal as hexmod
 import armi.reactor.grids.structuredGrid as sgmod
 from armi.reactor import geometry, grids
 from armi.settings import Settings
+from armi.settings.fwSettings.globalSettings import CONF_TRACK_ASSEMS
 
 from harness import _util_C13 as U
 
@@ -25,7 +26,9 @@ shims.patch(hexmod, np=shims.np_shim, sqrt=shims.math_shim.sqrt, isclose=shims.m
 
 STUBS = ["composites.np / component.np / blocks.np / assemblies.np / geometryConverters.np / structuredGrid.np -> "
          "object-array aware numpy shim", "component.float -> identity on proxies",
-         "hexagonal.np / sqrt / isclose -> shims (index-level harness only; identity on plain numbers)"]
+         "hexagonal.np / sqrt / isclose -> shims (index-level harness only; identity on plain numbers)",
+         "case settings: a default Settings() whose 'trackAssems' entry is the symbolic bool, handed to the real "
+         "Core.setOptionsFromCs (the settings validation machinery itself is not run on the proxy)"]
 
 THIRD = geometry.SymmetryType(geometry.DomainType.THIRD_CORE, geometry.BoundaryType.PERIODIC)
 FULL = geometry.SymmetryType(geometry.DomainType.FULL_CORE, geometry.BoundaryType.NO_SYMMETRY)
@@ -59,11 +62,18 @@ SCALARS = ("power", "powerGenerated", "kgHM")
 LISTS = ("adjMgFlux",)           # stays a python list
 ARRAYS = ("mgFlux",)             # the parameter setter turns it into a numpy array
 NG = 2
+VOLKEYS = ("volume", "volume (core)")
 
 
-def build(ctx, cells, nblocks, symmetry="third periodic", numRings=3):
-    """Mini core with symbolic block heights, number densities and volume-integrated block parameters."""
-    r, core, _ = U.mk_reactor(symmetry, numRings=numRings)
+def build(ctx, cells, nblocks, symmetry="third periodic", numRings=3, sfp=False):
+    """Mini core with symbolic block heights, number densities and volume-integrated block parameters.  The case
+    setting trackAssems (keep discharged assemblies in the spent fuel pool) is a symbolic bool; with sfp=True the
+    reactor has a spent fuel pool that already holds one assembly."""
+    track = ctx.bool("trackAssems")
+    r, core, pool = U.mk_reactor(symmetry, numRings=numRings, sfp=sfp)
+    core.setOptionsFromCs(U.SettingsView(Settings(), **{CONF_TRACK_ASSEMS: track}))
+    if pool is not None:
+        U.add_pool_resident(pool)
     S = {}
     asms = []
     for ai, (i, j) in enumerate(cells):
@@ -91,6 +101,7 @@ def totals(core):
     for nuc in U.NUCS:
         t["mass " + nuc] = core.getMass(nuc)
     t["volume"] = sum(b.getVolume() for a in core for b in a)
+    t["volume (core)"] = core.getVolume()      # sum over assemblies of (area of the first block, cached) x height
     for pn in SCALARS:
         t[pn] = core.getTotalBlockParam(pn)
     for pn in LISTS + ARRAYS:
@@ -101,15 +112,17 @@ def totals(core):
 
 def snapshot(core):
     """Observable state: assemblies (identity) by cell, names, per-block parameters, lookup tables."""
-    st = dict(cells={}, names={}, blocks={}, params={}, byLabel={}, byName={}, byBlockName={},
+    st = dict(cells={}, names={}, blocks={}, params={}, byLabel={}, byName={}, byBlockName={}, asm={},
               symmetry=str(core.symmetry))
     for a in core:
         ij = tuple(int(x) for x in a.spatialLocator.indices[:2])
         st["cells"][ij] = a
         st["names"][a.getName()] = a
+        st["asm"][ij] = {"getArea()": a.getArea(), "getVolume()": a.getVolume()}
         for k, b in enumerate(a):
             st["blocks"][b.getName()] = b
-            vals = {"height": b.getHeight(), "symFactor": b.getSymmetryFactor()}
+            vals = {"height": b.getHeight(), "symFactor": b.getSymmetryFactor(), "area": b.getArea(),
+                    "block volume": b.getVolume()}
             for pn in SCALARS:
                 vals[pn] = b.p[pn]
             for pn in LISTS + ARRAYS:
@@ -124,6 +137,10 @@ def snapshot(core):
             st["byLabel"][lab] = core.getAssemblyWithStringLocation(lab)
     st["byName"] = dict(core.assembliesByName)
     st["byBlockName"] = dict(core.blocksByName)
+    # everything else an assembly can be found through: the spent fuel pool and the all-inclusive assembly list
+    pool = core.r.excore.get("sfp")
+    st["pool"] = [] if pool is None else [(a, tuple(int(x) for x in a.spatialLocator.indices)) for a in pool]
+    st["everywhere"] = list(core.getAssemblies(includeSFP=True))
     return st
 
 
@@ -147,6 +164,26 @@ def check_lookups_truthful(ctx, core, what):
                   core.getAssemblyByName(a.getName()) is a)
 
 
+def check_geometry_consistent(ctx, core, what):
+    """Areas and volumes reported by blocks, assemblies and the core agree with each other and with the symmetry
+    factor of the moment (they are derived quantities and some are cached, so this is asked in every state).
+    Cross-sections are concrete numbers (trivial obligations); per state there is one solver obligation."""
+    volBlocks = 0
+    for a in core:
+        loc = a.getLocation()
+        for k, b in enumerate(a):
+            full = sum(c.getArea() for c in b)
+            ctx.check_close("%s: area of block %d of %s x symmetry factor = its whole cross-section" % (what, k, loc),
+                            b.getArea() * b.getSymmetryFactor(), full, scale=full)
+            volBlocks = volBlocks + b.getVolume()
+        fullA = sum(c.getArea() for c in a[0])
+        ctx.check_close("%s: area of assembly %s x symmetry factor = whole cross-section of its blocks" % (what, loc),
+                        a.getArea() * a[0].getSymmetryFactor(), fullA, scale=fullA)
+        ctx.check_close("%s: volume of assembly %s = area x height" % (what, loc), a.getVolume(),
+                        a.getArea() * a.getTotalHeight(), scale=fullA * a.getTotalHeight())
+    ctx.check_close("%s: core volume = sum of the block volumes" % what, core.getVolume(), volBlocks, scale=volBlocks)
+
+
 def check_same_state(ctx, core, before, what):
     """The core is back in the observable state `before` (same objects, places, parameters, lookups)."""
     now = snapshot(core)
@@ -167,6 +204,17 @@ def check_same_state(ctx, core, before, what):
               all(core.getAssemblyByName(n) is a for n, a in before["byName"].items()) and
               sorted(now["byBlockName"]) == sorted(before["byBlockName"]) and
               all(core.getBlockByName(n) is b for n, b in before["byBlockName"].items()))
+    ctx.check("%s: the spent fuel pool holds the same assemblies at the same places" % what,
+              len(now["pool"]) == len(before["pool"]) and
+              all(n[0] is o[0] and n[1] == o[1] for n, o in zip(now["pool"], before["pool"])))
+    ctx.check("%s: getAssemblies(includeSFP=True) finds the same assemblies, nothing else" % what,
+              len(now["everywhere"]) == len(before["everywhere"]) and
+              all(any(n is o for n in now["everywhere"]) for o in before["everywhere"]))
+    for ij, vals in before["asm"].items():
+        for pn, old in vals.items():
+            if ij in now["asm"]:
+                ctx.check_close("%s: assembly %s %s as before" % (what, (ij,), pn), now["asm"][ij][pn], old,
+                                scale=abs(old) + 1e-30)
     for key, vals in before["params"].items():
         for pn, old in vals.items():
             got = now["params"][key][pn] if key in now["params"] else None
@@ -178,18 +226,21 @@ def check_same_state(ctx, core, before, what):
 
 @harness("C13", bounds="third-core mini reactor, 3 rings, hand-made assemblies at enumerated cell sets (with centre, "
                        "0-degree-line cell, holes), 1-2 blocks each; symbolic per block: height [1,400], 4 number "
-                       "densities [0,10], 3 scalar + 2 two-group list/array volume-integrated parameters [0,1e9]",
+                       "densities [0,10], 3 scalar + 2 two-group list/array volume-integrated parameters [0,1e9]; "
+                       "case setting trackAssems symbolic bool; with / without a spent fuel pool holding one "
+                       "assembly; areas, volumes and masses queried in every state",
          stubs=STUBS, qtimeout_ms=20000,
-         instances={"quick": [dict(layout="c+3", nblocks=1), dict(layout="holes", nblocks=2),
-                              dict(layout="c+1", nblocks=1), dict(layout="nocentre", nblocks=1)],
-                    "thorough": [dict(layout="c+3", nblocks=2), dict(layout="ring3", nblocks=1),
-                                 dict(layout="holes", nblocks=2), dict(layout="c+1", nblocks=3),
-                                 dict(layout="nocentre", nblocks=2)]})
-def third_to_full_multiplies_by_three_and_restores(ctx, layout, nblocks):
+         instances={"quick": [dict(layout="c+3", nblocks=1, sfp=True), dict(layout="holes", nblocks=2, sfp=False),
+                              dict(layout="c+1", nblocks=1, sfp=False), dict(layout="nocentre", nblocks=1, sfp=True)],
+                    "thorough": [dict(layout="c+3", nblocks=2, sfp=False), dict(layout="ring3", nblocks=1, sfp=True),
+                                 dict(layout="holes", nblocks=2, sfp=True), dict(layout="c+1", nblocks=3, sfp=True),
+                                 dict(layout="nocentre", nblocks=2, sfp=False)]})
+def third_to_full_multiplies_by_three_and_restores(ctx, layout, nblocks, sfp):
     cells = LAYOUTS[layout]
-    r, core, asms, S = build(ctx, cells, nblocks)
+    r, core, asms, S = build(ctx, cells, nblocks, sfp=sfp)
     before = snapshot(core)
     tot0 = totals(core)
+    check_geometry_consistent(ctx, core, "third")
     n0 = len(core)
     hasCentre = (0, 0) in cells
     ctx.check("starts as third core", core.symmetry == THIRD and not core.isFullCore)
@@ -201,6 +252,7 @@ def third_to_full_multiplies_by_three_and_restores(ctx, layout, nblocks):
     ctx.check("full-core symmetry after convert", core.symmetry == FULL and core.isFullCore)
     ctx.check_eq("assembly count = 3 n - 2 [centre present]", len(core), 3 * n0 - (2 if hasCentre else 0))
     check_lookups_truthful(ctx, core, "full")
+    check_geometry_consistent(ctx, core, "full")
     now = snapshot(core)
     allNames = [a.getName() for a in core]
     allNums = [a.getNum() for a in core]
@@ -288,6 +340,7 @@ def third_to_full_multiplies_by_three_and_restores(ctx, layout, nblocks):
         return
     check_same_state(ctx, core, before, "restored")
     check_lookups_truthful(ctx, core, "restored")
+    check_geometry_consistent(ctx, core, "restored")
     tot2 = totals(core)
     for key, old in tot0.items():
         ctx.check_close("restored %s = original" % key, tot2[key], old, scale=old + 1e-30)
@@ -310,16 +363,22 @@ def _edge_cells(cells):
 
 
 @harness("C13", bounds="third-core mini reactor (3 or 5 rings) with 0, 1 or 2 assemblies on the 0-degree line; "
-                       "symbolic per block as above", stubs=STUBS, qtimeout_ms=20000,
-         instances={"quick": [dict(layout="line3", nblocks=1), dict(layout="line3+5", nblocks=1),
-                              dict(layout="noline", nblocks=1), dict(layout="line5only", nblocks=1)],
-                    "thorough": [dict(layout="line3", nblocks=2), dict(layout="line3+5", nblocks=2),
-                                 dict(layout="noline", nblocks=2), dict(layout="line5only", nblocks=2)]})
-def edge_add_then_remove_is_identity(ctx, layout, nblocks):
+                       "symbolic per block as above; trackAssems symbolic bool, with / without a spent fuel pool; "
+                       "areas, volumes and masses queried in every state (before, with edges, after scaling, after "
+                       "removal, second round)", stubs=STUBS, qtimeout_ms=20000,
+         instances={"quick": [dict(layout="line3", nblocks=1, sfp=True), dict(layout="line3+5", nblocks=1, sfp=False),
+                              dict(layout="noline", nblocks=1, sfp=False),
+                              dict(layout="line5only", nblocks=1, sfp=False)],
+                    "thorough": [dict(layout="line3", nblocks=2, sfp=False),
+                                 dict(layout="line3+5", nblocks=2, sfp=True),
+                                 dict(layout="noline", nblocks=2, sfp=True),
+                                 dict(layout="line5only", nblocks=2, sfp=True)]})
+def edge_add_then_remove_is_identity(ctx, layout, nblocks, sfp):
     cells, numRings = EDGE_LAYOUTS[layout]
-    r, core, asms, S = build(ctx, cells, nblocks, numRings=numRings)
+    r, core, asms, S = build(ctx, cells, nblocks, numRings=numRings, sfp=sfp)
     before = snapshot(core)
     tot0 = totals(core)
+    check_geometry_consistent(ctx, core, "before")
     pairs = _edge_cells(cells)
     ec = gc.EdgeAssemblyChanger()
     ec.addEdgeAssemblies(core)
@@ -336,6 +395,7 @@ def edge_add_then_remove_is_identity(ctx, layout, nblocks):
     ctx.check("exactly the 120-degree images of the line cells were added",
               set(now["cells"]) == set(cells) | set(e for _, e in pairs))
     check_lookups_truthful(ctx, core, "with edges")
+    check_geometry_consistent(ctx, core, "with edges")
     names = [a.getName() for a in core]
     ctx.check("names unique with edges", len(set(names)) == len(names))
     for (lo, up) in pairs:
@@ -355,14 +415,16 @@ def edge_add_then_remove_is_identity(ctx, layout, nblocks):
                                 now["params"][(lo, k)][pn], scale=abs(now["params"][(lo, k)][pn]) + 1e-30)
     # two halves make one whole: the modelled mass and volume do not change
     tot1 = totals(core)
-    for key in ["mass " + n for n in U.NUCS] + ["volume"]:
+    for key in ["mass " + n for n in U.NUCS] + list(VOLKEYS):
         want = tot0[key]
         if not skipHalves:
             ctx.check_close("with edges: %s unchanged" % key, tot1[key], want, scale=want + 1e-30)
 
     # nothing re-assigned in between: scaling must not touch anything, removal restores the previous state
     gc.EdgeAssemblyChanger.scaleParamsRelatedToSymmetry(core)
+    check_geometry_consistent(ctx, core, "with edges, scaled")
     ec.removeEdgeAssemblies(core)
+    check_geometry_consistent(ctx, core, "edges removed")
     check_same_state(ctx, core, before, "edges removed")
     check_lookups_truthful(ctx, core, "edges removed")
     tot2 = totals(core)
@@ -373,7 +435,13 @@ def edge_add_then_remove_is_identity(ctx, layout, nblocks):
     # a second round trip with the same changer object behaves the same
     ec.addEdgeAssemblies(core)
     ctx.check_eq("second add: edge assemblies are back", len(core), len(cells) + len(pairs))
+    check_geometry_consistent(ctx, core, "second add")
+    if not skipHalves:
+        tot3 = totals(core)
+        for key in VOLKEYS:
+            ctx.check_close("second add: %s unchanged" % key, tot3[key], tot0[key], scale=tot0[key] + 1e-30)
     ec.removeEdgeAssemblies(core)
+    check_geometry_consistent(ctx, core, "edges removed again")
     check_same_state(ctx, core, before, "edges removed again")
 
 
@@ -388,10 +456,12 @@ def edge_scale_then_remove_combines_two_halves(ctx, layout, subset):
     """Docstring of scaleParamsRelatedToSymmetry: scaling then removing the symmetric identicals is identical to
     combining two half assemblies into a full one."""
     cells, numRings = EDGE_LAYOUTS[layout]
-    r, core, asms, S = build(ctx, cells, 1, numRings=numRings)
+    r, core, asms, S = build(ctx, cells, 1, numRings=numRings, sfp=subset is not None)
     pairs = _edge_cells(cells)
+    vol0 = {key: v for key, v in totals(core).items() if key in VOLKEYS}
     ec = gc.EdgeAssemblyChanger()
     ec.addEdgeAssemblies(core)
+    check_geometry_consistent(ctx, core, "with edges")
     byCell = {tuple(int(x) for x in a.spatialLocator.indices[:2]): a for a in core}
     # "physics" writes half-assembly results on every block on a symmetry line
     half = {}
@@ -413,6 +483,10 @@ def edge_scale_then_remove_combines_two_halves(ctx, layout, subset):
     ec.removeEdgeAssemblies(core)
 
     ctx.check_eq("edge assemblies gone", len(core), len(cells))
+    check_geometry_consistent(ctx, core, "combined")
+    tot = totals(core)
+    for key, old in vol0.items():
+        ctx.check_close("combined: %s as before the edge assemblies were added" % key, tot[key], old, scale=old)
     sel = lambda pn: subset is None or pn in subset
     for n, (lo, up) in enumerate(pairs):
         b = byCell[lo][0]
@@ -449,7 +523,9 @@ OPS = ("convert", "restore", "addEdge", "removeEdge")
 @harness("C13", bounds="every sequence of K operations from {convert, restore, add-edge, remove-edge} (first one "
                        "per instance, the others symbolic and forked; K=3 quick, 4 thorough) on a third-core mini "
                        "reactor with / without an assembly on the 0-degree line; one changer object of each kind; "
-                       "symbolic block parameters as above", stubs=STUBS, qtimeout_ms=20000, max_paths=400,
+                       "symbolic block parameters as above; trackAssems symbolic bool, spent fuel pool present when "
+                       "the history starts with convert / add-edge; areas, volumes, masses queried after every step",
+         stubs=STUBS, qtimeout_ms=20000, max_paths=400,
          instances={"quick": [dict(layout="line3", first=op, K=3) for op in OPS] +
                              [dict(layout="noline", first="addEdge", K=2), dict(layout="noline", first="convert", K=2)],
                     "thorough": [dict(layout=lay, first=op, K=4) for lay in ("line3", "noline", "line3+5")
@@ -459,7 +535,7 @@ def histories_of_conversions_keep_the_model(ctx, layout, first, K):
     F = full core.  convert: T|E -> F (times three), restore: back to the state before the last convert,
     add-edge: T -> E (if anything sits on the 0-degree line), remove-edge: E -> T; everything else is a no-op."""
     cells, numRings = EDGE_LAYOUTS[layout]
-    r, core, asms, S = build(ctx, cells, 1, numRings=numRings)
+    r, core, asms, S = build(ctx, cells, 1, numRings=numRings, sfp=first in ("convert", "addEdge"))
     pairs = _edge_cells(cells)
     n0 = len(cells)
     hasCentre = (0, 0) in cells
@@ -503,6 +579,7 @@ def histories_of_conversions_keep_the_model(ctx, layout, first, K):
                 model, snapE = "T", None
 
         check_lookups_truthful(ctx, core, what)
+        check_geometry_consistent(ctx, core, what)
         tot = totals(core)
         if model == "T":
             check_same_state(ctx, core, base, what + " (third core)")
@@ -514,7 +591,7 @@ def histories_of_conversions_keep_the_model(ctx, layout, first, K):
             ctx.check("%s: full core" % what, core.isFullCore)
             ctx.check_eq("%s: 3 n - 2 [centre] assemblies" % what, len(core), 3 * n0 - (2 if hasCentre else 0))
             for key, old in baseTot.items():
-                integrated = not (key.startswith("mass") or key == "volume")
+                integrated = not (key.startswith("mass") or key in VOLKEYS)
                 if integrated and centreUnscaled and KNOWN_DEFECT_centre_not_scaled_after_noop_addEdge:
                     ctx.note("KNOWN_DEFECT_centre_not_scaled_after_noop_addEdge: convert after an add-edge that added "
                              "nothing leaves the centre assembly's volume-integrated parameters at one third")
